@@ -379,6 +379,10 @@ def catalogue_c13(tier):
         c = timed(case('c13/%s-slow-connect/unsub' % kind, T('conn', 1), [[SL(20), UNSUB1, SL(600)]], tags=['conn-stop']), 200)
         c['conn'] = [{'kind': kind, 'term': slow}]
         cs.append(c)
+    # the last subscriber leaves while a new one joins, on two threads; afterwards the hot source emits
+    c = case('c13/ref_count-hot/leaver-vs-joiner', T('conn', 1), [[UNSUB1], [{'op': 'sub', 'u': 2}]], post=[E(1, 'n', 11)], tags=['joiner-gets-items'])
+    c['conn'] = [{'kind': 'ref_count', 'term': S(1)}]
+    cs.append(c)
     c = case('c13/replay-acold/leave-and-rejoin', T('conn', 1), [[SL(200), UNSUB1, SL(50), {'op': 'sub', 'u': 2}, SL(300)]], tags=['replay-once'])
     c['conn'] = [{'kind': 'replay', 'term': later}]
     cs.append(c)
